@@ -1,5 +1,5 @@
 (* JudgeSoundC06P.v — the executable property of Check/C06_check.v (c06_ok / c06_ok1_from = c06_core + log_ok + kind_ok +
-   liveness clause; attr_ok; hist_ok) IS the C06 property:
+   give-up clause + liveness clause; attr_ok; hist_ok) IS the C06 property:
    (b) an implementation output that passes it satisfies the conclusions of C06_sig_threshold (with the signatures
        STRICTLY ascending by signer address) / C06_obs_threshold / C06_one_observation_per_node / C06_total_no_panic
        read on the script of the case, C06_requests_wellformed read on the Send log, C06_failure_origin read on the
@@ -83,25 +83,76 @@ Proof.
     apply existsb_exists. exists s. split; [exact Hs|]. unfold is_k1. now rewrite E.
 Qed.
 
+(* what a give-up that passes says (C06_giveup_only_after_asking_all for an ARBITRARY output): an output that reports
+   ErrInsufficientObservationResponses either shows an observation request naming the lane to EVERY observer of every
+   requested lane, or there is a lane on which the voters of the best root in the script together with the observers
+   that were never asked are fewer than F_home+1 *)
+Definition log_asked (log : list send_t) (ch : chain) (n : node) : Prop :=
+  exists s, In s log /\ snd_kind s = 0%N /\ snd_node s = n /\ In ch (snd_chains s).
+Lemma asked_for_in log ch n : In n (asked_for log ch) <-> log_asked log ch n.
+Proof.
+  unfold asked_for, log_asked. rewrite in_map_iff. split.
+  - intros (s & E & H). apply filter_In in H as [H K]. apply andb_true_iff in K as [K M]. exists s.
+    unfold is_k0 in K. apply N.eqb_eq in K. apply memN_in in M. auto.
+  - intros (s & H & K & E & M). exists s. split; [exact E|]. apply filter_In. split; [exact H|].
+    unfold is_k0. rewrite K. cbn. now apply memN_in.
+Qed.
+Lemma unasked_in log u n : In n (unasked log u) <-> In n (u_nodes u) /\ ~ log_asked log (u_chain u) n.
+Proof.
+  unfold unasked. rewrite filter_In, negb_true_iff, memN_false, asked_for_in. tauto.
+Qed.
+
+Definition giveup_P (cfg : config) (its : list item) (o : out1) : Prop :=
+  o_kind o = 5%N -> forall us, prepare cfg = inl (Ok us) ->
+  (forall u n, In u us -> In n (u_nodes u) -> log_asked (o_log o) (u_chain u) n) \/
+  (exists u, In u us /\
+     (zlen (dedupN (have_votes cfg its u ++ unasked (o_log o) u)) < u_F u + 1)%Z).
+
+Lemma giveup_ok_sound cfg its o : giveup_ok cfg its o = true -> giveup_P cfg its o.
+Proof.
+  unfold giveup_ok, giveup_P. intros H K us P. rewrite K, P in H. change (N.eqb 5 5) with true in H. cbv iota in H.
+  apply negb_true_iff, andb_false_iff in H as [H|H].
+  - left. intros u n Hu Hn. destruct (memN n (asked_for (o_log o) (u_chain u))) eqn:Em.
+    + now apply asked_for_in, memN_in.
+    + exfalso. assert (E : existsb (fun u => negb (nilb (unasked (o_log o) u))) us = true); [|congruence].
+      apply existsb_exists. exists u. split; [exact Hu|]. apply negb_true_iff.
+      destruct (unasked (o_log o) u) as [|m l] eqn:Eu; [|reflexivity]. exfalso.
+      assert (Hin : In n (unasked (o_log o) u)); [|rewrite Eu in Hin; destruct Hin].
+      apply filter_In. split; [exact Hn|]. now rewrite Em.
+  - right. assert (Hx : exists u, In u us /\ reachable_with cfg its (o_log o) u = false).
+    { clear -H. induction us as [|u us IH]; [discriminate|]. cbn [forallb] in H.
+      apply andb_false_iff in H as [H|H]; [exists u; split; [now left|exact H]|].
+      destruct (IH H) as (v & Hv & E). exists v. split; [now right|exact E]. }
+    destruct Hx as (u & Hu & E). exists u. split; [exact Hu|]. unfold reachable_with, gte_f_plus_one in E.
+    apply Z.leb_gt in E. exact E.
+Qed.
+
+
 (* ---------------- (b) for the whole executable property ---------------- *)
 Definition c06_full_P (off : nat) (i : c06_in) (o : out1) : Prop :=
   c06_P i o /\ log_P (i_cfg i) (o_log o) (o_attr o) /\ kind_P (i_cfg i) (i_items i) o /\
   (* C06_liveness: if its hypotheses hold of the case (for every schedule and event list the model allows), success *)
-  ((exists us rho, live_facts off i us rho) -> live_test_from off i = true -> o_kind o = 0%N).
+  ((exists us rho, live_facts off i us rho) -> live_test_from off i = true -> o_kind o = 0%N) /\
+  giveup_P (i_cfg i) (i_items i) o.
 
 Theorem c06_ok1_from_sound off i o : c06_ok1_from off i o = true -> c06_full_P off i o.
 Proof.
-  unfold c06_ok1_from. intros H. apply andb_true_iff in H as [H H4]. apply andb_true_iff in H as [H H3].
+  unfold c06_ok1_from. intros H. apply andb_true_iff in H as [H H4]. apply andb_true_iff in H as [H HG].
+  apply andb_true_iff in H as [H H3].
   apply andb_true_iff in H as [H1 H2]. split; [now apply c06_core_sound|]. split; [now apply log_ok_sound|].
-  split; [now apply kind_ok_sound|]. intros _ L. destruct (N.eqb_spec (o_kind o) 0) as [E|N0]; [exact E|].
+  split; [now apply kind_ok_sound|]. split; [|now apply giveup_ok_sound].
+  intros _ L. destruct (N.eqb_spec (o_kind o) 0) as [E|N0]; [exact E|].
   rewrite L in H4. discriminate.
 Qed.
 (* the liveness clause in one line: a passing output of a case that satisfies the test reports success *)
 Theorem c06_ok1_from_live off i o : c06_ok1_from off i o = true -> live_test_from off i = true -> o_kind o = 0%N.
 Proof.
-  intros H L. destruct (c06_ok1_from_sound off i o H) as (_ & _ & _ & Hl). apply Hl; [|exact L].
+  intros H L. destruct (c06_ok1_from_sound off i o H) as (_ & _ & _ & Hl & _). apply Hl; [|exact L].
   now apply live_test_sound.
 Qed.
+(* the give-up clause in one line *)
+Theorem c06_ok1_from_giveup off i o : c06_ok1_from off i o = true -> giveup_P (i_cfg i) (i_items i) o.
+Proof. intros H. now destruct (c06_ok1_from_sound off i o H) as (_ & _ & _ & _ & Hg). Qed.
 
 Theorem c06_ok_from_sound off i o : c06_ok_from off i o = true -> exists x, o = [x] /\ c06_full_P off i x.
 Proof.
@@ -209,12 +260,34 @@ Proof.
     destruct (prepare_inr _ _ P) as [->|[->| ->]]; reflexivity.
 Qed.
 
+(* the give-up clause: the model reports ErrInsufficientObservationResponses only after it has asked every observer *)
+Lemma obs_asked_log l ch n : obs_asked l ch n -> log_asked (map send_of l) ch n.
+Proof. intros (r & H & K & E & M). exists (send_of r). split; [now apply in_map|]. auto. Qed.
+
+Theorem model_outcome_giveup off i x :
+  cfg_wf (i_cfg i) -> In x (c06_model_from off i) -> giveup_ok (i_cfg i) (i_items i) x = true.
+Proof.
+  intros WF Hx. destruct (model_outcome_reach off i x WF Hx) as (order1 & ro & g & acc & _ & _ & _ & -> & K).
+  set (sc := sched_of off i order1 ro) in *. destruct K as ((evs & Er & F) & _).
+  unfold giveup_ok. destruct (N.eqb_spec (o_kind (out_of g acc)) 5) as [K5|]; [|reflexivity].
+  destruct (prepare (i_cfg i)) as [[us| | |]|fl] eqn:P; try reflexivity.
+  assert (Hg : exists l, g = GFinal (Failure FInsufObs) l).
+  { destruct g as [us' s|s|[sigs rep|f|] l]; cbn in K5; try discriminate. destruct f; cbn in K5; try discriminate. eauto. }
+  destruct Hg as [l ->]. symmetry in Er.
+  pose proof (giveup_only_after_asking_all edv_c vrs_c _ sc evs l us Er P) as A.
+  replace (existsb _ us) with false; [reflexivity|]. symmetry. apply not_true_iff_false. intros E.
+  apply existsb_exists in E as (u & Hu & E). apply negb_true_iff in E.
+  destruct (unasked _ u) as [|n r] eqn:Eu; [discriminate|].
+  assert (Hn : In n (unasked (o_log (out_of (GFinal (Failure FInsufObs) l) acc)) u)) by (rewrite Eu; now left).
+  apply unasked_in in Hn as [Hn Hna]. apply Hna. cbn [out_of o_log]. apply obs_asked_log. now apply A.
+Qed.
+
 (* (a) for one outcome *)
 Theorem c06_model_outcome_passes off i x :
   cfg_wf (i_cfg i) -> In x (c06_model_from off i) -> o_kind x <> 10%N -> c06_ok1_from off i x = true.
 Proof.
   intros WF Hx Hk. unfold c06_ok1_from. rewrite (c06_model_outcome_core off i x WF Hx Hk).
-  destruct (model_outcome_log_kind off i x WF Hx Hk) as [-> ->]. cbn [andb].
+  destruct (model_outcome_log_kind off i x WF Hx Hk) as [-> ->]. rewrite (model_outcome_giveup off i x WF Hx). cbn [andb].
   destruct (N.eqb_spec (o_kind x) 0) as [E|N0]; [reflexivity|].
   destruct (live_test_from off i) eqn:L; [|reflexivity]. exfalso. apply N0. now apply (live_test_success off i x WF L).
 Qed.
@@ -273,7 +346,7 @@ Proof. unfold c06_ok, c06_ok_from. destruct o as [|x [|y o]]; try discriminate. 
 Lemma c06_ok1_from_core off i o : c06_ok1_from off i o = true -> c06_core i o = true.
 Proof.
   unfold c06_ok1_from. intros H. apply andb_true_iff in H as [H _]. apply andb_true_iff in H as [H _].
-  now apply andb_true_iff in H as [H _].
+  apply andb_true_iff in H as [H _]. now apply andb_true_iff in H as [H _].
 Qed.
 Theorem c06_sigs_ordered i o :
   c06_ok i o = true ->
@@ -300,6 +373,42 @@ Proof.
   intros H L. destruct (c06_ok_single i o H) as (x & E & H1). exists x. split; [exact E|].
   exact (c06_ok1_from_live 0 i x H1 L).
 Qed.
+
+Theorem c06_giveup_sound i o :
+  c06_ok i o = true -> exists x, o = [x] /\ giveup_P (i_cfg i) (i_items i) x.
+Proof.
+  intros H. destruct (c06_ok_single i o H) as (x & E & H1). exists x. split; [exact E|].
+  exact (c06_ok1_from_giveup 0 i x H1).
+Qed.
+
+(* ---------------- non-vacuity of the give-up clause ---------------- *)
+Module ExG.
+  Import Witness.
+  (* Witness.cfg: nodes 1, 2, 3 observe lane 5, F_home = 1; the initial wave asks 1 and 2.
+     early: 1 votes root 105, 2 votes root 106 - the wave has answered, no root has two votes; an output that gives up
+     here, with observer 3 never asked, does not pass: 3 together with the voter of 105 would complete the threshold *)
+  Definition items_early : list item := [IResp 1 (BMsg 1 (obs_of 21 105)); IResp 2 (BMsg 2 (obs_of 22 106))]%N.
+  Definition inp_early : c06_in := mkIn cfg [1; 2]%N [] [1; 2]%N [] [] items_early.
+  Definition early_out : out1 := mkOut 5 [] [] [(0, 1, 1, true, [5]); (0, 2, 2, true, [5])]%N [] true.
+  (* late: 1 answers with a bad signature (Reset(0): the timer fires, 3 is asked), 2 votes 105, 3 answers with a bad
+     signature - every observer was asked, every request is finished: giving up passes, and it is what the model does *)
+  Definition items_late : list item :=
+    [IResp 1 (BMsg 1 (obs_of 99 105)); IResp 2 (BMsg 2 (obs_of 22 105)); IResp 3 (BMsg 3 (obs_of 99 105))]%N.
+  Definition inp_late : c06_in := mkIn cfg [1; 2]%N [3]%N [1; 2]%N [] [] items_late.
+  Definition late_out : out1 :=
+    mkOut 5 [] [] [(0, 1, 1, true, [5]); (0, 2, 2, true, [5]); (0, 3, 3, true, [5])]%N [] true.
+
+  Example giveup_examples :
+    (giveup_ok cfg items_early early_out = false /\ ~ giveup_P cfg items_early early_out) /\
+    (giveup_ok cfg items_late late_out = true /\ c06_oeqb (c06_model inp_late) [late_out] = true).
+  Proof.
+    split; [split; [vm_compute; reflexivity|]|split; vm_compute; reflexivity].
+    intros H. destruct (H eq_refl _ eq_refl) as [A|(u & Hu & Hz)].
+    - destruct (A _ 3%N (or_introl eq_refl)) as (s & Hs & K & E & M); [cbn; auto|].
+      cbn in Hs. destruct Hs as [<-|[<-|[]]]; cbn in E; discriminate.
+    - destruct Hu as [<-|[]]. vm_compute in Hz. discriminate.
+  Qed.
+End ExG.
 
 (* ---------------- non-vacuity, and the defect of the executable property as it was before ---------------- *)
 Module Ex.
